@@ -378,7 +378,7 @@ def run(tier):
     chk = Check("C10", tier)
     chk.proofs(extra_files=["Corr/K10.v"])
     rng = chk.rng
-    per_life = 60 if tier == "thorough" else 14
+    per_life = 200 if tier == "thorough" else 40
     jobs = []
     for life in (0, 2, 180):
         for ops in scripted(life):
